@@ -336,8 +336,8 @@ func Main(r *core.Run) {
 			small = append(small, g)
 		}
 	}
-	jobs := []jobset{{all, selectors(quick)}, {small, Families(quick)}}
-	r.Rule(fmt.Sprintf("every selector AST with ≤%d clauses over the tier's clause alphabet plus every parser-accepted subset bound pair (%d selectors) × every block graph with ≤%d nodes over leaves {int,string,bytes,dangling link}, cut into blocks in every way with ≤%d cuts, plus targeted 3-level shapes with shared/repeated links (%d graphs); targeted families (overlapping unions, unions under recursion with uneven edge distances, unguarded edges, nested recursion: %d selectors) × %d graphs; recursions with a stop-at link condition (every link of the graph as the condition, on one-, two- and three-step sequences); WalkAdv and WalkMatching on the real code vs the substitution-style reference denotation. Non-trivial = ≥2 expected visits; distinct by (graph, selector).", map[bool]int{true: 3, false: 4}[quick], len(jobs[0].ss), map[bool]int{true: 4, false: 5}[quick], map[bool]int{true: 2, false: 3}[quick], len(all), len(jobs[1].ss), len(small)))
+	jobs := []jobset{{all, selectors(quick)}, {small, Families(quick)}, numeralKeyJobs()}
+	r.Rule(fmt.Sprintf("every selector AST with ≤%d clauses over the tier's clause alphabet plus every parser-accepted subset bound pair (%d selectors) × every block graph with ≤%d nodes over leaves {int,string,bytes,dangling link}, cut into blocks in every way with ≤%d cuts, plus targeted 3-level shapes with shared/repeated links (%d graphs); targeted families (overlapping unions, unions under recursion with uneven edge distances, unguarded edges, nested recursion: %d selectors) × %d graphs; recursions with a stop-at link condition (every link of the graph as the condition, on one-, two- and three-step sequences); fields clauses naming map keys that look like numbers (01, -1, +2, 00) over maps holding them; WalkAdv and WalkMatching on the real code vs the substitution-style reference denotation. Non-trivial = ≥2 expected visits; distinct by (graph, selector).", map[bool]int{true: 3, false: 4}[quick], len(jobs[0].ss), map[bool]int{true: 4, false: 5}[quick], map[bool]int{true: 2, false: 3}[quick], len(all), len(jobs[1].ss), len(small)))
 	r.Assume("reference denotation mc/trav/refwalk.go: recursion by substitution as documented in exploreRecursive.go (each edge becomes a copy of the recursive selector with depth-1), union = set of members, order = node order under explore-all else stated order")
 	for ji, job := range jobs {
 		gs, ss := job.gs, job.ss
@@ -511,4 +511,27 @@ func stopAtJobs(r *core.Run, gs []trav.GraphSpec) {
 			r.OutcomeN(k, v)
 		}
 	})
+}
+
+// numeralKeyJobs: map keys that look like numbers but are not canonical decimal numerals are just
+// keys: a fields clause naming them selects them (maps only: on lists such names are unspecified).
+func numeralKeyJobs() jobset {
+	leaf := ref.Int(7)
+	m := ref.Map(ref.E("01", leaf), ref.E("1", ref.List(leaf)), ref.E("-1", leaf), ref.E("+2", ref.Map(ref.E("a", leaf), ref.E("00", leaf))), ref.E("00", leaf), ref.E("7", leaf))
+	gs := []trav.GraphSpec{{Tree: m}, {Tree: m, Cuts: []int{2}}, {Tree: ref.Map(ref.E("x", m))}}
+	mm := trav.M()
+	f := func(names ...string) *trav.Sel {
+		var fl []trav.Field
+		for _, n := range names {
+			fl = append(fl, trav.F1(n, mm))
+		}
+		return trav.Fld(fl...)
+	}
+	base := []*trav.Sel{f("01"), f("-1"), f("+2"), f("00"), f("1", "01"), f("01", "1"), f("-1", "+2", "7"), f("7", "00", "01", "-1"),
+		trav.Fld(trav.F1("+2", trav.All(mm))), trav.Fld(trav.F1("+2", f("00", "a")))}
+	var ss []*trav.Sel
+	for _, b := range base {
+		ss = append(ss, b, trav.Fld(trav.F1("x", b)), trav.Un(b, f("7")), trav.Rec(-1, trav.Un(mm, b, trav.Fld(trav.F1("x", trav.Edge())))))
+	}
+	return jobset{gs, ss}
 }
